@@ -20,6 +20,9 @@ type csvCase struct {
 	src    string
 	sep    rune
 	data   string
+	// prog: the case runs the real csvimport program twice (inputs data, data2), restarts and lists
+	prog  bool
+	data2 string
 }
 
 func csvField(r *hx.Rng, ty string, sep rune) string {
@@ -68,6 +71,17 @@ func runCsv(cfg *config) {
 					if f[1] != "-" {
 						b, _ := hex.DecodeString(f[1])
 						cc.data = string(b)
+					}
+					cases = append(cases, cc)
+				case "program":
+					cc.prog = true
+					if f[1] != "-" {
+						b, _ := hex.DecodeString(f[1])
+						cc.data = string(b)
+					}
+					if len(f) > 2 && f[2] != "-" {
+						b, _ := hex.DecodeString(f[2])
+						cc.data2 = string(b)
 					}
 					cases = append(cases, cc)
 				}
@@ -145,7 +159,20 @@ func runCsv(cfg *config) {
 			for k := range cols {
 				sch = append(sch, cols[k]+":"+tys[k])
 			}
-			cases = append(cases, csvCase{strings.Join(sch, " "), strings.Join(dst, ","), strings.Join(src, ","), sep, sb.String()})
+			cases = append(cases, csvCase{schema: strings.Join(sch, " "), dst: strings.Join(dst, ","), src: strings.Join(src, ","), sep: sep, data: sb.String()})
+		}
+		// the program itself, run twice on one table without a crash in between, then a restart:
+		// every record either run accepted is there afterwards, once, in input order
+		for i := 0; i < 4*cfg.scale; i++ {
+			rr := r.Fork()
+			mk := func() string {
+				var sb strings.Builder
+				for l, nl := 0, rr.Range(1, 5); l < nl; l++ {
+					fmt.Fprintf(&sb, "%d,%s\n", rr.Range(0, 999), csvField(rr, "varchar", ','))
+				}
+				return sb.String()
+			}
+			cases = append(cases, csvCase{schema: "c0:int c1:varchar", dst: "c0,c1", src: "0,1", sep: ',', data: mk(), data2: mk(), prog: true})
 		}
 	}
 	cwd, _ := os.Getwd()
@@ -161,6 +188,10 @@ func runCsv(cfg *config) {
 		fin, _ := os.Create(inPath)
 		w := bufio.NewWriter(fin)
 		for _, c := range cases[start:] {
+			if c.prog {
+				fmt.Fprintf(w, "case\nschema %s\nmap %s %s %d\nprogram %s %s\n", c.schema, c.dst, c.src, int(c.sep), hx.Hex([]byte(c.data)), hx.Hex([]byte(c.data2)))
+				continue
+			}
 			fmt.Fprintf(w, "case\nschema %s\nmap %s %s %d\ncsv %s\n", c.schema, c.dst, c.src, int(c.sep), hx.Hex([]byte(c.data)))
 		}
 		w.Flush()
@@ -223,7 +254,7 @@ func runCsv(cfg *config) {
 			switch {
 			case strings.HasPrefix(l, "types") || l == "typeserr":
 				types = l
-			case strings.HasPrefix(l, "rec"):
+			case strings.HasPrefix(l, "rec"), strings.HasPrefix(l, "prec "):
 				recs = append(recs, l)
 			case strings.HasPrefix(l, "ev "):
 				evs = append(evs, l)
@@ -235,6 +266,23 @@ func runCsv(cfg *config) {
 		}
 		tr.Op("map %s %s %d", c.dst, c.src, int(c.sep))
 		tr.Out("%s", types)
+		if c.prog {
+			tr.Op("program %s %s", hx.Hex([]byte(c.data)), hx.Hex([]byte(c.data2)))
+			if special != "" {
+				tr.Out("%s", special)
+			}
+			for _, rec := range recs {
+				tr.Op("%s", rec)
+			}
+			tr.Op("prog-dump")
+			for _, r := range rows {
+				tr.Out("%s", r)
+			}
+			tr.Out("end")
+			cfg.st.Inc("program-runs")
+			cfg.st.Seen("csv-program", len(rows) > 0)
+			continue
+		}
 		tr.Op("csvdata %s", hx.Hex([]byte(c.data)))
 		if special != "" {
 			tr.Out("%s", special)
